@@ -18,12 +18,11 @@ Rules (all added to the report of C18):
 std::string is summarised: a length cell (kept in mixed radix R*a + b so that "groups of R" stay linear), an exactly
 sized character block behind data()/operator[]/begin()/end(); reserve / constructors / destructor do nothing.
 """
-import math
 import os
 from common import *
 from lin import Lin, _L, normalize
-from absval import IntVal, PtrVal, CondVal, Obj, NULL, TOP, mk_const, State
-from contracts import Env
+from absval import IntVal, PtrVal, CondVal, Obj, mk_const
+from contracts import assume_text
 from irlib import demangle, keep_all_but_new_helpers, tyname
 
 ONLY = None          # developer switch: run only the named parts
@@ -135,8 +134,16 @@ class LenInterp(Interp):
             first = self.concrete_step(newsyms, vals0) or []
             points.extend(first)
             for v1 in first[:3]:
-                if len(v1) == len(vals0):
+                if v1:
                     points.extend(self.concrete_step(newsyms, v1) or [])
+            # ... and four more trips along the first path (a group of up to six steps is completed once)
+            cur = points[len(first)] if len(points) > len(first) else None
+            for _ in range(4):
+                if not cur:
+                    break
+                nxt = self.concrete_step(newsyms, cur) or []
+                points.extend(nxt[:2])
+                cur = nxt[0] if nxt else None
             # the amounts by which the loop-carried quantities move per trip are coefficients worth trying
             ks = set(ks)
             for v in first:
@@ -455,7 +462,7 @@ class StrModel:
         """a std::string object that exists on entry (argument / callee result) with its character block"""
         so = st.new_obj('param', Lin(32), name, {'desc': 'std::string %s' % name})
         this = PtrVal(so.id, Lin(0))
-        self.init(st, this, length, radix)
+        self.init(st, this, length, radix, eager=False)
         do = st.new_obj('param', _L(length), name + '.data', {'desc': 'characters of std::string %s' % name})
         if text is not None:
             do.info['text'] = text
@@ -468,7 +475,6 @@ class StrModel:
     # -- members -------------------------------------------------------------------------------------------------
     def handler(self, tail):
         name = tail.split('(')[0]
-        const = tail.endswith(' const')
         sig = tail[len(name):]
         if name == 'basic_string':
             if sig.startswith('()') or sig.startswith('(std::allocator<char> const&)'):
@@ -516,7 +522,9 @@ class StrModel:
         return [(st, None)]
 
     def m_ctor(self, interp, st, i, args):
-        self.init(st, args[0], 0)
+        # no block for the empty string: it would be dropped by the first append, and a pointer cell that is rewritten inside
+        # a loop becomes one more loop-head symbol
+        self.init(st, args[0], 0, eager=False)
         return [(st, None)]
 
     def m_fill(self, interp, st, i, args):
@@ -660,7 +668,6 @@ class LenRun(ContractRun):
         return n
 
     def check_return(self, fn, spec, env, struct_params, T, rv, posts=None):
-        from contracts import assume_text
         saved = env.names
         env.names = dict(saved)
         try:
@@ -679,8 +686,6 @@ class LenRun(ContractRun):
                     Ts = nxt
                 # a path that the premise contradicts through a recorded disequality is not a path of this case
                 Ts = [s for s in Ts if not any(s.cons.entails(d) and s.cons.entails(-d) for d in s.diseq.values())]
-                if os.environ.get('C18LEN_DEBUG'):
-                    print('RETCASE %s: %d state(s)' % (pc['name'], len(Ts)))
                 if not Ts:
                     continue
                 self.case_hits[pc['name']] = self.case_hits.get(pc['name'], 0) + len(Ts)
@@ -708,15 +713,17 @@ def bind_frontiers(box, pairs):
     return f
 
 
-def import_obs(rep, rule, it, run, label, mod, keep=None):
+def import_obs(rep, rule, it, run, label, mod, keep=None, top=None):
+    """obligations -> rule instances of `label`; an obligation inside a callee is keyed ...:in:<callee>"""
     obs = summarize(it, run)
     for o in obs:
-        if o.get('call_stack'):
+        if o.get('call_stack') and o['function'] != top:
             o['root'] = label
             f = mod.fn(o['function'])
             o['leaf'] = (f.srcname if f is not None and f.srcname else o['function'])
         else:
             o['function'] = label
+            o.pop('call_stack', None)
     if keep is not None:
         obs = [o for o in obs if keep(o)]
     rep.add_absint(rule, obs)
@@ -772,7 +779,7 @@ def hex_c_rule(rep, repo, broken):
         r.binders.append(bind_frontiers(box, [('rd_in', 'in', 'rd'), ('wr_out', 'out', 'wr')]))
         r.run(f.name, FnSpec(pre=pre, setup=setup, post=posts), fn=f)
         broken.extend(r.broken)
-        import_obs(rep, 'R-HEXLEN', it, r, label, mod)
+        import_obs(rep, 'R-HEXLEN', it, r, label, mod, top=f.name)
 
     # size is the int parameter (position 1)
     run('hexascii_encode', 'hexascii_encode', ['arg1 >= 0', 'arg1 <= %d' % MAXLEN], 'arg1', '2 * arg1',
@@ -843,6 +850,7 @@ def b64enc_rule(rep, mod, broken):
             for j in range(4):
                 if st.cons.entails_eq(b, j):
                     b = Lin(j)
+                    break
         if F is None or not b.is_const() or frontier(st, box['in'], 'rdgap') != 0:
             r.broken.append('base64_encode: position inside the group (%r) / read frontier (%r, gap %r) not known at %s'
                             % (b, F, frontier(st, box['in'], 'rdgap'), inst.where()))
@@ -860,6 +868,30 @@ def b64enc_rule(rep, mod, broken):
                       % (b.c, NEED[b.c] - 1, F, a, interp.explain(st, [F, a])), 'char%d' % b.c)
     model.push_hook = push_hook
 
+    def store_hook(interp, st, inst, p, v):
+        # the same clause for a result that is sized first and filled by stores (operator[], pointer): the character at
+        # text position w = 4g + j is written
+        if interp.recording > 0 or box.get('out') is None or not isinstance(p, PtrVal) or p.obj is None:
+            return
+        o = st.objs.get(p.obj)
+        if o is None or not o.info.get('desc', '').startswith('characters of the returned std::string'):
+            return
+        cur = model.data_obj(st, box['out'], create=False)
+        if cur is None or cur.id != p.obj:
+            return
+        w = p.off
+        j = w.c % 4
+        if (w - j).divisible(4):
+            g, b = (w - j).div_exact(4), Lin(j)
+        else:
+            gq = st.fresh_int(64, False, 'grp')
+            gr = st.fresh_int(64, False, 'pos')
+            st.cons.add_le(gr.u, 3)
+            st.cons.add_eq(gq.u * 4 + gr.u, w)
+            g, b = gq.u, gr.u
+        push_hook(interp, st, inst, box['out'], g, b)
+    it.store_hook = store_hook
+
     def setup(run_, st, env, names, args, sps):
         sized_input(st, env, args, 1, 2, box)
         box['size'] = env.names['arg2']
@@ -874,7 +906,7 @@ def b64enc_rule(rep, mod, broken):
                    dict(name='size==3q+2', when=['arg2 == 3 * q + 2'], then=['ret_len == 4 * q + 4', 'rd_in == arg2'])]
     r.run(f.name, FnSpec(pre=['arg2 <= %d' % MAXLEN], setup=setup), fn=f)
     broken.extend(r.broken)
-    import_obs(rep, 'R-B64ENCLEN', it, r, 'igris::base64_encode', mod)
+    import_obs(rep, 'R-B64ENCLEN', it, r, 'igris::base64_encode', mod, top=f.name)
 
 
 # ----------------------------------------------------------------------------------------------------------------
@@ -908,8 +940,6 @@ def b64dec_rule(rep, mod, broken):
                 s2.cons.add_eq(P, Q * 4 + k)
                 if not interp.infeasible(s2, P, Q):
                     out.append(s2)
-            if os.environ.get('C18LEN_DEBUG'):
-                print('SPLIT -> %d' % len(out), interp.explain(s, [P, Q])[:1500])
             return out
         it.exit_split = split
     r.binders.append(bind_frontiers(box, [('rd_in', 'in', 'rd')]))
@@ -919,7 +949,7 @@ def b64dec_rule(rep, mod, broken):
                                 then=['ret_len == 3 * Q + %d' % max(k - 1, 0), 'rd_in >= P', 'rd_in <= P + 1']))
     r.run(f.name, FnSpec(setup=setup), fn=f)
     broken.extend(r.broken)
-    import_obs(rep, 'R-B64DECLEN', it, r, 'igris::base64_decode', mod)
+    import_obs(rep, 'R-B64DECLEN', it, r, 'igris::base64_decode', mod, top=f.name)
 
 
 # ----------------------------------------------------------------------------------------------------------------
@@ -979,7 +1009,7 @@ def hex_string_rule(rep, repo, broken):
         dict(name='every-input-byte-is-read', then=['rd_in == arg2']),
         dict(name='every-character-of-the-result-is-written', then=['text_wr == 2 * arg2'])]), fn=enc)
     broken.extend(r.broken)
-    import_obs(rep, 'R-HEXLEN', it, r, 'igris::hexascii_encode(ptr,size)', mod)
+    import_obs(rep, 'R-HEXLEN', it, r, 'igris::hexascii_encode(ptr,size)', mod, top=enc.name)
     fwd_rule(rep, mod, broken, 'hexascii_encode', enc, 'igris::hexascii_encode')
 
 
@@ -1042,14 +1072,15 @@ def fwd_rule(rep, mod, broken, srcname, target, label):
             dict(name='passes-the-first-character', then=['ghost_fwd_same == 1', 'ghost_fwd_off == 0']),
             dict(name='passes-the-whole-length', then=['ghost_fwd_len == n'])]), fn=f)
         broken.extend(r.broken)
-        import_obs(rep, 'R-FWD', it, r, '%s(%s)' % (label, 'std::string' if kind == 'string' else 'igris::buffer'), mod)
+        import_obs(rep, 'R-FWD', it, r, '%s(%s)' % (label, 'std::string' if kind == 'string' else 'igris::buffer'), mod,
+                   top=f.name)
     return n_found
 
 
 # ----------------------------------------------------------------------------------------------------------------
 # R-URLWALK, R-URLMAP
 # ----------------------------------------------------------------------------------------------------------------
-def url_rules(rep, mod, broken):
+def url_rules(rep, mod, broken, lengths=(1, 3)):
     enc = the_fn(mod, 'base64_encode', 3, lambda f: f.params[0].get('sret') and f.params[1]['ty']['k'] == 'ptr'
                  and f.params[2]['ty']['k'] == 'int')
     dec = the_fn(mod, 'base64_decode', 2, lambda f: f.params[0].get('sret'))
@@ -1133,13 +1164,13 @@ def url_rules(rep, mod, broken):
         r.run(fn.name, FnSpec(pre=(['arg2 <= %d' % MAXLEN] if direction == 'enc' else []), setup=setup, post=posts), fn=fn)
         broken.extend(r.broken)
         rule = 'R-URLWALK' if nconst is None else 'R-URLMAP'
-        import_obs(rep, rule, it, r, label if nconst is None else '%s[%d characters]' % (label, nconst), mod,
+        import_obs(rep, rule, it, r, label if nconst is None else '%s[%d characters]' % (label, nconst), mod, top=fn.name,
                    keep=None if nconst is None else (lambda o: o['kind'] == 'post'))
 
     for (fn, label, direction) in ((uenc, 'igris::base64url_encode', 'enc'), (udec, 'igris::base64url_decode', 'dec')):
         one(fn, label, direction, None)
-        one(fn, label, direction, 1)
-        one(fn, label, direction, 3)
+        for n_ in lengths:
+            one(fn, label, direction, n_)
     n = fwd_rule(rep, mod, broken, 'base64_encode', enc, 'igris::base64_encode')
     n += fwd_rule(rep, mod, broken, 'base64url_encode', uenc, 'igris::base64url_encode')
     return n
@@ -1162,10 +1193,27 @@ def run_parts(rep, repo, tier):
 
     def part(name):
         return ONLY is None or name in ONLY
+    rep.explanation += (
+        ' Lengths and loop structure (c18_len.py, abstract interpretation with std::string summarised by a length cell): '
+        'hexascii_encode / hexascii_decode and igris::hexascii_encode(ptr, size) touch exactly n input and 2n output bytes '
+        '(n and n/2 for the decoder, an odd trailing digit is ignored, nothing is touched for n <= 0), every byte of both '
+        'is read / written; base64_encode reads inside an exactly sized buffer, advances by three bytes per four characters '
+        'and returns 4*ceil(n/3) characters (cases n mod 3); base64_decode reads below size(), stops at the first padding or '
+        'non-alphabet character (text model: alphabet classes before a symbolic stop position, every other class at it) and '
+        'returns 3 bytes per quartet plus k-1 for a tail of k symbols, scratch arrays in bounds; the url-safe variants walk '
+        'exactly the text and apply the character map position by position (texts of 1 and 3 characters, every class); '
+        'the std::string / igris::buffer overloads forward (data(), size()). Not decided: the decoded / encoded contents as '
+        'a whole (bit slices per group are decided by R-B64GROUP), inputs longer than 2^30.')
+    rep.assumptions += ['lengths <= 2^30 (the int / size_t arithmetic of the codecs does not wrap); hexascii_encode is called '
+                        'with size >= 0',
+                        'std::string members are trusted and summarised (length cell, exactly sized character block); '
+                        'isalnum is the C-locale predicate; the digit maps half2hex / hex2byte are pure (R-HEXDIGIT)',
+                        'base64url_encode / base64url_decode are analysed against the summaries of base64_encode / '
+                        'base64_decode that R-B64ENCLEN / R-B64DECLEN justify']
     if part('hexc'):
         hex_c_rule(rep, repo, broken)
     modb = None
-    if ONLY is None or ONLY & {'enc', 'dec', 'url', 'fwd'}:
+    if ONLY is None or ONLY & {'enc', 'dec', 'url'}:
         modb = compile_ir(repo + '/igris/util/base64.cpp', repo, inline=keep_all_but_new_helpers(('is_base64',)))
         rep.units.append('igris/util/base64.cpp (lengths)')
     if part('enc'):
@@ -1173,12 +1221,23 @@ def run_parts(rep, repo, tier):
     if part('dec'):
         b64dec_rule(rep, modb, broken)
     if part('url'):
-        url_rules(rep, modb, broken)
+        url_rules(rep, modb, broken, (1, 3) if tier != 'thorough' else (1, 2, 3, 4))
     if part('hexs'):
         hex_string_rule(rep, repo, broken)
+    if ONLY is None:
+        rep.floor('R-HEXLEN:bounds', 4)
+        rep.floor('R-HEXLEN:post', 11)
+        rep.floor('R-B64ENCLEN:bounds', 1)
+        rep.floor('R-B64ENCLEN:group', 8)
+        rep.floor('R-B64ENCLEN:post', 6)
+        rep.floor('R-B64DECLEN:bounds', 3)
+        rep.floor('R-B64DECLEN:post', 12)
+        rep.floor('R-URLWALK:bounds', 3)
+        rep.floor('R-URLWALK:post', 7)
+        rep.floor('R-URLMAP:post', 40)
+        rep.floor('R-FWD:post', 12)
     mine = ('R-HEXLEN', 'R-B64ENCLEN', 'R-B64DECLEN', 'R-URLWALK', 'R-URLMAP', 'R-FWD')
     failing = [i for i in rep.instances if not i['ok'] and i['rule'].split(':')[0] in mine]
-    if os.environ.get('C18LEN_DEBUG') and broken:
-        print('BROKEN NOTES', broken[:6])
     if broken and not failing:
-        raise AnalysisBroken('; '.join(broken[:4]))
+        # a clause could not be stated on this form of the code (and no clause failed): never a pass
+        raise AnalysisBroken('; '.join(sorted(set(broken))[:4]))
